@@ -2070,6 +2070,36 @@ pub fn run_pool_case(case: &PoolCase, logging: bool, phases: Phases) -> RunOut {
                     check_abandoned_dials(&mut w);
                     check_unfaulted_failures(&mut w);
                 }
+                // quiescent state: every request ended, every attempt terminated, background work ran.
+                // Whatever non-multiplexed connection is still alive, open, ready and unheld now can only
+                // be kept by the pool's idle list (also one that entered it from a background task).
+                if sim.live().is_empty() {
+                    for _ in 0..3 {
+                        sim.bg().await;
+                    }
+                    let mut w = sim.w.lock().unwrap();
+                    let quiet = !w.dials.iter().any(|d| d.in_flight());
+                    if quiet {
+                        let max = w.cfg.max_idle;
+                        let keys: BTreeSet<String> = w.conns.iter().map(|c| c.okey.clone()).collect();
+                        for k in keys {
+                            let ids: Vec<usize> = w
+                                .conns
+                                .iter()
+                                .enumerate()
+                                .filter(|(_, c)| c.okey == k && !c.shareable && c.open && c.ready && c.handles >= 1 && c.holders.is_empty())
+                                .map(|(i, _)| i)
+                                .collect();
+                            if ids.len() > max {
+                                let msg = format!("after everything ended, {} open idle connections {ids:?} are still kept for {k} with max_idle_per_host = {max}", ids.len());
+                                w.violate("C15/idle-bound-exceeded-at-quiescence", msg);
+                            }
+                            if ids.len() == max && max > 0 {
+                                w.classes.insert("idle-list-full-at-quiescence");
+                            }
+                        }
+                    }
+                }
                 if phases.probe {
                     let origins: Vec<(usize, bool)> = {
                         let w = sim.w.lock().unwrap();
